@@ -447,6 +447,7 @@ def run_mq(case: dict) -> Result:
         "dead_at": {},
         "reported": set(),
         "root": False,
+        "deferred": [],
         "instants": 0,
     }
 
@@ -514,15 +515,18 @@ def run_mq(case: dict) -> Result:
                 )
                 mon["root"] = True
         unknown = len(h.pub_seq) - len(h.refused) - sum(1 for p in h.pub_seq if p in h.mid_of)
-        if unknown == 0:
+        if True:
+            # messages whose id the harness does not know yet (published < 0.1 ms ago) are pending or in flight
             res.count("counter_checks")
             pc, fc = q.pending_count, q.in_flight_count
-            if pc != n_pending or fc != n_inflight:
-                rel = []
-                if pc != n_pending:
-                    rel.append("pending_count" + (">" if pc > n_pending else "<") + "pending-messages")
-                if fc != n_inflight:
-                    rel.append("in_flight_count" + (">" if fc > n_inflight else "<") + "in-flight-messages")
+            rel = []
+            if pc > n_pending + unknown or pc < n_pending:
+                rel.append("pending_count" + (">" if pc > n_pending else "<") + "pending-messages")
+            if fc > n_inflight + unknown or fc < n_inflight:
+                rel.append("in_flight_count" + (">" if fc > n_inflight else "<") + "in-flight-messages")
+            if not rel and pc + fc != n_pending + n_inflight + unknown:
+                rel.append("pending_count+in_flight_count" + (">" if pc + fc > n_pending + n_inflight + unknown else "<") + "live-messages")
+            if rel:
                 if "counters" not in mon:
                     # reported at the end, together with what it led to
                     mon["counters"] = {
@@ -538,29 +542,32 @@ def run_mq(case: dict) -> Result:
         if "poll" in kinds and t not in h.sub_instants:
             still = mon["prev_pending"] & pending_now
             if still and q.consumer_count >= 1 and mon["consumers_prev"] >= 1 and dispatch == mon["prev_dispatch"]:
-                if mon["root"]:
-                    mon["idle_polls"] = mon.get("idle_polls", 0) + 1
-                else:
-                    report(
+                mon["idle_polls"] = mon.get("idle_polls", 0) + 1
+                # reported at the end, and only if no accounting / counter defect explains it
+                mon["deferred"].append(
+                    (
                         "poll-not-dispatched",
                         cause(),
                         f"poll at t={t}ns with pids {sorted(h.pid_of[m] for m in still)} pending and {q.consumer_count} consumers dispatched nothing",
                     )
+                )
             res.count("polls_checked")
         # a requested redelivery must be dispatched when due
         for mid in h.redelivery_due.get(t, []):
             res.count("redeliveries_due_checked")
-            if mon["root"] or t in h.sub_instants:
+            if t in h.sub_instants:
                 continue
             before = mon["prev_count"].get(mid)
             live = q.get_message(mid)
             if before is None or live is None or mid in h.acks or mid in dead_ids:
                 continue
             if q.consumer_count >= 1 and mon["consumers_prev"] >= 1 and live.delivery_count <= before:
-                report(
-                    "requested-redelivery-not-dispatched",
-                    cause(),
-                    f"redelivery of pid={h.pid_of[mid]} due at t={t}ns: delivery_count stayed {before}, state {live.state.value}",
+                mon["deferred"].append(
+                    (
+                        "requested-redelivery-not-dispatched",
+                        cause(),
+                        f"redelivery of pid={h.pid_of[mid]} due at t={t}ns: delivery_count stayed {before}, state {live.state.value}",
+                    )
                 )
         mon["prev_dispatch"] = dispatch
         mon["prev_count"] = counts
@@ -724,6 +731,9 @@ def run_mq(case: dict) -> Result:
                 "state:" + "+".join(sorted({s for _, s in stranded})) + "/" + cause(),
                 f"after {2 * n_polls} polls, timeouts and an acknowledging consumer, pids {stranded[:6]} are neither acknowledged nor dead-lettered",
             )
+    if not mon["root"]:
+        for oracle, shape, detail in mon["deferred"]:
+            report(oracle, shape, detail)
     if "counters" in mon:
         c = mon["counters"]
         extra = f"; afterwards {mon.get('idle_polls', 0)} polls with a message pending and a consumer subscribed dispatched nothing"
